@@ -157,7 +157,7 @@ class Gen:
         alg = rng.choice(["sha256", "sha512", "sha512"])
         cdir = rng.choice(["content", "content", "data", "c0ntent-dir"])
         if self.hostile:
-            cdir = rng.choice(["content", 'c"d', "c\\d", "c d ", "ünï🙂", "", "c\nd"])
+            cdir = rng.choice(["content", 'c"d', "c\\d", "c d ", "ünï🙂", "", "c\nd", " ", ". ", " ..", "\t", " . "])
         width = rng.choice([0, 0, 0, 1, 2, 3, 5])
         spec = rng.choice(["-", "-", "1.0", "1.1"])
         created = oid
@@ -374,6 +374,50 @@ class Gen:
         self.commit(oid)
         self.observe_staged(oid)
 
+    def name_clash(self):
+        """one internal copy with two sources that land on the same name, one a directory with files several levels
+        down, the other a file: whichever is handled first, the result must not hold a path that is both.  Which
+        source wins depends on hash order inside the library, so the model is not compared on these steps; the object
+        is purged afterwards"""
+        sc, rng = self.sc, self.rng
+        n = len(sc.steps)
+        oid = "clash%d" % n
+        self.ids.append(oid)
+        self.objs[oid] = dict(alg="sha512", cdir="content")
+        for k in range(5):
+            self.mkfile("nc%d/a/sub/deep/f%d.txt" % (n, k), ("deep %d %d" % (n, k)).encode())
+        self.mkfile("nc%d/b/sub" % n, ("a file named sub %d" % n).encode())
+        sc.add("new", "new %s sha512 %s 0 -" % (hx(oid), hx("content")), kind="mut", id=oid, cdir="content")
+        sc.add("cpx", "cpx %s 1 %s %s %s" % (hx(oid), hx("/"), hx("nc%d/a" % n), hx("nc%d/b" % n)), kind="mut", id=oid)
+        self.commit(oid, root=("objects/%s" % oid) if self.layout[0] == "none" else None)
+        move = rng.random() < 0.4
+        if move:
+            sc.add("mvi", "mvi %s %s %s %s" % (hx(oid), hx("c"), hx("a/sub"), hx("b/sub")), kind="nondet", id=oid)
+        else:
+            sc.add("cpi", "cpi %s - 1 %s %s %s" % (hx(oid), hx("c"), hx("a/sub"), hx("b/sub")), kind="nondet", id=oid)
+        sc.add("commit", "commit %s %s - - - %s 0" % (hx(oid), hx("objects/%s" % oid) if self.layout[0] == "none" else "-", self.ts()), kind="nondet", id=oid)
+        sc.add("purge", "purge %s" % hx(oid), kind="mut", id=oid)
+        self.ids.remove(oid)
+
+    def repeated_names(self, oid):
+        """internal recursive copies / moves where a directory has the name of its parent (`rep/rep/...`, `lib/lib/...`):
+        the destination keeps every level below the copied directory"""
+        sc, rng = self.sc, self.rng
+        n = len(sc.steps)
+        for rel, b in {"rep/rep/nested.txt": b"n", "rep/rep/deep/deep.txt": b"d", "rep/rep/rep/three.txt": b"3", "lib/lib/only.txt": b"o"}.items():
+            self.mkfile("rn%d/%s" % (n, rel), b + str(n).encode())
+        for top in ("rep", "lib"):
+            sc.add("cpx", "cpx %s 1 %s %s" % (hx(oid), hx("/"), hx("rn%d/%s" % (n, top))), kind="mut", id=oid)
+        if rng.random() < 0.6:
+            self.commit(oid)
+        sc.add("cpi", "cpi %s - 1 %s %s" % (hx(oid), hx("copied"), hx("rep/rep")), kind="mut", id=oid)
+        sc.add("mvi", "mvi %s %s %s" % (hx(oid), hx("moved"), hx("lib")), kind="mut", id=oid)
+        if rng.random() < 0.5:
+            sc.add("cpi", "cpi %s - 1 %s %s" % (hx(oid), hx("again/"), hx("rep")), kind="mut", id=oid)
+        self.observe_staged(oid)
+        self.commit(oid)
+        self.observe_staged(oid)
+
     def twin_create(self):
         """both clients create the same new object in their own staging areas; the first commit wins, the second
         must be refused (also without a storage layout, where the two would be stored under different roots)"""
@@ -493,6 +537,12 @@ class Gen:
             return
         if 0.25 <= r0 < 0.29:
             self.sibling_dirs(oid)
+            return
+        if 0.29 <= r0 < 0.32 and not self.hostile:
+            self.name_clash()
+            return
+        if 0.32 <= r0 < 0.35:
+            self.repeated_names(oid)
             return
         if self.two_clients and rng.random() < 0.35:
             sc.add("client", "client %d" % rng.randint(0, 1), kind="skipd")
